@@ -351,7 +351,11 @@ func resolveComputedFields(env *Environment, errorSink *validation.ErrorSink) *E
 									if dimIndex != argIndex {
 										expectedOrder := make([]string, len(*d.Dimensions))
 										for i, dim := range *d.Dimensions {
-											expectedOrder[i] = *dim.Name
+											if dim.Name != nil {
+												expectedOrder[i] = *dim.Name
+											} else {
+												expectedOrder[i] = "_"
+											}
 										}
 										errorSink.Add(validationError(arg.Value, "array index has arguments must be specified in order: %s", strings.Join(expectedOrder, ", ")))
 										return t
